@@ -227,11 +227,12 @@ def one(ctx, pts, knees, link, t, mode, family):
         rows = [[float(v) for v in pp.rank_corners_triangle(pts, np.array(g, dtype=int))] for g in G]
         from fractions import Fraction as F
         for g, r in zip(G, rows):
-            k = g[0]
-            q = F(d.call('corner_tri', [core.rats(pts[k - 1]), core.rats(pts[k]), core.rats(pts[k + 1])])[0])
-            ctx.corr_checked += 1
-            if abs(F(r[0]) - q) > F(1, 10 ** 9) * (abs(q) + 1):
-                ctx.fail('correspondence', 'cornerTriQ vs rank_corners_triangle', 'postprocessing.rank_corners_triangle', case, dict(knee=k, impl=r[0], model=float(q)))
+            for j_, k in enumerate(g):                      # every member of every cluster (the score of the chosen one matters as much as the first one's)
+                q = F(d.call('corner_tri', [core.rats(pts[k - 1]), core.rats(pts[k]), core.rats(pts[k + 1])])[0])
+                ctx.corr_checked += 1
+                if abs(F(r[j_]) - q) > F(1, 10 ** 9) * abs(q) + F(1, 10 ** 300):
+                    ctx.fail('correspondence', 'cornerTriQ vs rank_corners_triangle', 'postprocessing.rank_corners_triangle', case, dict(knee=k, impl=r[j_], model=float(q)))
+                    break
         if any(len(p) != 1 for p in per):
             ctx.fail('predicate', 'corner-variant-one-member-per-cluster', site, case, dict(out=out, clusters=G))
         else:
